@@ -229,7 +229,9 @@ class Exec:
             if isinstance(e.func, ast.Attribute) and e.func.attr == "to_2D" and not e.args:
                 v = self.ev(e.func.value, env)
                 if isinstance(v, V3): return V2(v.x, v.y)
-            if f == "np.zeros_like" and len(e.args) == 1: return Mat()
+            # np.zeros_like(x) / np.zeros_like(x, dtype=np.float64): the zero matrix over R (an element type is outside the R model; the
+            # integer-typed case is covered by the numeric search, where it matters)
+            if f == "np.zeros_like" and len(e.args) == 1 and all(k.arg == "dtype" and ast.unparse(k.value) in ("np.float64", "float") for k in e.keywords): return Mat()
             if f in env and callable(env[f]):
                 return env[f](*[self.ev(a, env) for a in e.args])
             self.fail(e, "call")
